@@ -153,3 +153,7 @@ def _r18_2(res, programs):
                 else:
                     res.fail("R18.2", cfgname, key, "%s returns (-%s, +%s, closed_left=%s, closed_right=%s); the reals that round to this float under mode %s are (-%s, +%s, closed_left=%s, closed_right=%s)" % (
                         key, got[0], got[1], got[2], got[3], mode, want[0], want[1], want[2], want[3]), mir.span_loc(fn["sp"]))
+
+
+LEVEL = LEVEL + " Also (R18.2) ErrorBounds::error_bounds of every mode returns the interval (with open / closed ends) of values that round back to the float, tabulated against the mode's definition; (R04.1, shared) the interval end points handed to the Farey walk are reduced."
+TECHNIQUE = 'finite-domain tabulation of is_simpler_than and of the six ErrorBounds bodies against definition oracles; call-shape rule for the interval end points'
